@@ -280,8 +280,19 @@ func (c *RaftCluster) LoadClusterInfo() (*RaftCluster, error) {
 	}
 
 	start := time.Now()
-	if err := c.storage.LoadStores(c.core.PutStore); err != nil {
+	// The BasicCluster outlives a leadership term. A store record that another leader removed in the meantime
+	// (RemoveTombStoneRecords) must not stay in the cache of a member that is elected again.
+	loaded := make(map[uint64]struct{})
+	if err := c.storage.LoadStores(func(store *core.StoreInfo) {
+		loaded[store.GetID()] = struct{}{}
+		c.core.PutStore(store)
+	}); err != nil {
 		return nil, err
+	}
+	for _, store := range c.core.GetStores() {
+		if _, ok := loaded[store.GetID()]; !ok {
+			c.core.DeleteStore(store)
+		}
 	}
 	log.Info("load stores",
 		zap.Int("count", c.GetStoreCount()),
